@@ -189,3 +189,46 @@ func ZzC18ClientStart() {
 	zzCover("validation passed", err == nil)
 	zzCover("validation failed", err != nil)
 }
+
+// C20, paths with a segment that looks like "trackID=n" (the property lists
+// them explicitly): /<pre>/trackID=<k>/<suf> with and without a query.
+func ZzC20SplitLookalike() {
+	k := zzConcretize(zzIntIn("inner", 0, 9))
+	pre := zzString("pre", 0, 2)
+	suf := zzString("suf", 1, 2)
+	ok := true
+	for i := 0; i < 2; i++ {
+		ok = zzAnd(ok, zzImplies(i < len(pre), zzSAt(pre, i) != '/'))
+		ok = zzAnd(ok, zzImplies(i < len(suf), zzSAt(suf, i) != '/'))
+	}
+	zzAssume(ok)
+	path := "/" + pre + "/trackID=" + strconv.Itoa(k) + "/" + suf
+	if zzBool("atStart") {
+		path = "/trackID=" + strconv.Itoa(k) + "/" + suf
+	}
+	query := ""
+	if zzBool("withQuery") {
+		query = "a=" + zzString("qv", 1, 2)
+		zzAssume(zzSAt(query, len(query)-1) != '/')
+	}
+	n := zzConcretize(zzIntIn("track", 0, 9))
+	ctl := "trackID=" + strconv.Itoa(n)
+	var setup, play *base.URL
+	if query != "" {
+		setup = &base.URL{Scheme: "rtsp", Host: "h", Path: path, RawQuery: query + "/" + ctl}
+		play = &base.URL{Scheme: "rtsp", Host: "h", Path: path, RawQuery: query + "/"}
+	} else {
+		setup = &base.URL{Scheme: "rtsp", Host: "h", Path: path + "/" + ctl}
+		play = &base.URL{Scheme: "rtsp", Host: "h", Path: path + "/"}
+	}
+	p, q, tid, err := getPathAndQueryAndTrackID(setup)
+	zzAssert(err == nil, "lookalike: setup URL is analysed")
+	zzAssert(p == path, "lookalike: handler sees the original path")
+	zzAssert(q == query, "lookalike: handler sees the original query")
+	zzAssert(tid == strconv.Itoa(n), "lookalike: track id")
+	p2, q2 := getPathAndQuery(play, false)
+	zzAssert(p2 == path, "lookalike play: path")
+	zzAssert(q2 == query, "lookalike play: query")
+	zzCover("with query", query != "")
+	zzCover("without query", query == "")
+}
